@@ -264,6 +264,8 @@ func (prop) Extra(rng *rand.Rand, tier string) corr.ExtraResult {
 			e.exhaustiveSubsets(10)
 			e.bigSizes(rng, 12)
 		}
+		// users of the root in pkg/blockchain: Block.Validate / BlockAssets.GetRoot on payloads changed in place (blockroot.go)
+		e.blockRoots(rng, tier)
 	}()
 	e.res.Exhaustive = true
 	e.res.Notes["scope"] = "float vs integer height/split/binary length exhaustively and around 2^k (k<=53); layer structure closed form; every leaf subset of every small tree; sizes around powers of two"
